@@ -314,6 +314,10 @@ def stepW (w : World) (line : String) : World × String :=
     match c.toNat? with
     | some c => let (w', out) := w.mkStrand c (parseSeq seq) (optS name); (w', showOut out)
     | none => (w, "bad-op")
+  | ["mk.strandp", c, name, pfx, seq] =>
+    match c.toNat? with
+    | some c => let (w', out) := w.mkStrandP c (parseSeq seq) (optS name) (optS pfx); (w', showOut out)
+    | none => (w, "bad-op")
   | ["mk.macro", c, name, ms] =>
     match c.toNat? with
     | some c => let (w', out) := w.mkMacro c (parseHandles ms) (optS name); (w', showOut out)
